@@ -528,6 +528,36 @@ CYCLES = {
   (ev/sleep 0)
   (ev/cancel t "stop")
   (ev/sleep 0)'''),
+    # a waiter of a THREAD channel whose wait is over (cancelled / deadline / satisfied through another ev/select clause) leaves a stale
+    # pending entry - and the root taken for it - behind; ev/chan-close by the same thread pops it and must give the root back (seed C20-7)
+    "cancel-thread-chan-take-then-close": ("cheap", r'''
+  (def c (ev/thread-chan 0))
+  (def t (ev/spawn (try (ev/take c) ([e] nil))))
+  (ev/sleep 0)
+  (ev/cancel t "stop")
+  (ev/sleep 0)
+  (ev/chan-close c)'''),
+    "cancel-thread-chan-give-then-close": ("cheap", r'''
+  (def c (ev/thread-chan 1))
+  (ev/give c :fill)
+  (def t (ev/spawn (try (ev/give c (string "x" i)) ([e] nil))))
+  (ev/sleep 0)
+  (ev/cancel t "stop")
+  (ev/sleep 0)
+  (ev/chan-close c)'''),
+    "deadline-thread-chan-take-then-close": ("cheap", r'''
+  (def c (ev/thread-chan 0))
+  (try (ev/with-deadline 0.001 (ev/take c)) ([e] nil))
+  (ev/chan-close c)'''),
+    "select-other-clause-thread-chan-then-close": ("cheap", r'''
+  (def c (ev/thread-chan 0))
+  (def other (ev/chan 1))
+  (def dn (ev/chan 1))
+  (ev/spawn (ev/give dn (ev/select c other)))
+  (ev/sleep 0)
+  (ev/give other :go)
+  (assert (= :take ((ev/take dn) 0)))
+  (ev/chan-close c)'''),
     "deadline-expires": ("cheap", r'''
   (def c (ev/chan))
   (try (ev/with-deadline 0.001 (ev/take c)) ([e] nil))'''),
@@ -739,6 +769,10 @@ def _task(kind, k, rng):
         return "(def ch%d (ev/chan))" % k, "(ev/take ch%d)" % k, "cancelled", "(ev/cancel t%d :stop)" % k
     if kind == "cancel-tchan-take":
         return "(def tc%d (ev/thread-chan))" % k, "(ev/take tc%d)" % k, "cancelled", "(ev/cancel t%d :stop)" % k
+    if kind == "cancel-tchan-take-close":
+        # … and the channel is closed afterwards by this thread: the stale entry of the cancelled waiter is popped by ev/chan-close
+        return ("(def tcc%d (ev/thread-chan))" % k, "(ev/take tcc%d)" % k, "cancelled",
+                "(ev/cancel t%d :stop) (ev/spawn (ev/sleep %g) (ev/chan-close tcc%d))" % (k, d, k))
     if kind == "cancel-read":
         return ("(def [r%d w%d] (os/pipe))" % (k, k), "(ev/read r%d 4)" % k, "cancelled",
                 "(ev/cancel t%d :stop) (ev/spawn (ev/sleep 0.002) (ev/close r%d) (ev/close w%d))" % (k, k, k))
@@ -759,7 +793,7 @@ def _task(kind, k, rng):
 
 
 MIX_KINDS = ["sleep", "sleep-chain", "thread", "do-thread", "proc", "execute", "pipe", "proc-pipe", "tcp", "chan", "tchan-thread",
-             "read-timeout", "deadline", "stale-deadline", "stale-timeout", "cancel-sleep", "cancel-take", "cancel-tchan-take",
+             "read-timeout", "deadline", "stale-deadline", "stale-timeout", "cancel-sleep", "cancel-take", "cancel-tchan-take", "cancel-tchan-take-close",
              "cancel-read", "cancel-proc-wait", "close-under-read", "chan-close-under-take", "loop1-interrupt", "thread-nowait", "proc-wait-abandoned", "cancel-thread-await",
              "duplex-close-both", "duplex-peer-close-both", "duplex-cancel-both", "accept-then-close", "proc-wait-kill-close-pipes",
              "deadline-then-close", "tchan-givers-abandon",
